@@ -53,7 +53,9 @@ def run(tier):
         marks[l] = v[0] if v else "."
     by_cfg = {c: [] for c in configs}
     for ti, t in enumerate(trees):
-        cs = configs if per_tree >= len(configs) else random.Random(C.seed() * 101 + ti).sample(configs, per_tree)
+        # (quick: the depth-3 chains under one seeded configuration each, the rest under three)
+        n_cfg = 1 if tier == "quick" and ti >= len(trees) - exprgen.N_CHAIN3[tier] else per_tree
+        cs = configs if n_cfg >= len(configs) else random.Random(C.seed() * 101 + ti).sample(configs, n_cfg)
         for c in cs:
             by_cfg[c].append(ti)
     # the recorded example of every open finding is judged in every run (so a finding that stops reproducing is noticed)
@@ -112,9 +114,8 @@ def run(tier):
         verdict.reject(f"{reason}|{s['cfg'][0]}|{s['cfg'][1]}|{s['cfg'][2]}|{S.fp(shape)}", text,
                        {"script": s["ops"][:5] + [{"op": "set_mathml", "mathml": xml}, {"op": "speech"}]},
                        text=json.dumps({"reason": reason, "lang": s["cfg"][0], "style": s["cfg"][1], "verbosity": s["cfg"][2], "lost_by_is_repetitive": by_rep, "tree": trees[ti], "speech": out[:300], "tail": out[-400:] if rr["r"] != "ok" else ""}, ensure_ascii=False))
-    for idx, reason in drifts[:30]:
-        si, oi = back[idx - 1]
-        verdict.add_drift(f"{reason}: {scripts[si]['cfg']} {scripts[si]['meta'][oi][2][:120]}")
+    # (a literal spoken MORE often than it occurs - ClearSpeak's 'the interval from a to b, not including a or b' - is counted in
+    #  the evidence, not reported: the statement's concern is operands that are not voiced)
     rc = verdict.finish(wd)
     C.write_evidence(PID, tier, "model_checking", {
         "states": gen["states"], "transitions": gen["transitions"],
